@@ -315,4 +315,28 @@ theorem fresh_match_hits (cfg : Cfg) (t0 : Int) (req : Req) (e : Entry) (key : S
   split at h <;> (cases h; exact ⟨rfl, _, rfl⟩)
 
 
+/-- HandleValidationResponse with any continuation: it only performs store writes, then hands one
+    result to the continuation -/
+theorem handleValidation_k (cfg : Cfg) (method : Str) (reqH : Header) (key : Str) (stored : Entry) (refs : List Ref)
+    (ri : Option Nat) (f : Freshness) (ccReq : Directives) (mv : Bool) (start : Int) (ans : OriginAns)
+    (k : Result → Prog) (tr : List Step) (res : Result)
+    (h : Run (handleValidation cfg method reqH key stored refs ri f ccReq mv start ans k) tr res) :
+    ∃ tr1 tr2 r', tr = tr1 ++ tr2 ∧ contacted tr1 = false ∧ spawned tr1 = false ∧ Run (k r') tr2 res := by
+  unfold handleValidation at h
+  simp only [] at h
+  split at h
+  · split at h <;> exact ⟨[], tr, _, rfl, rfl, rfl, h⟩
+  · split at h
+    · split at h
+      · exact ⟨[], tr, _, rfl, rfl, rfl, h⟩
+      · cases h with
+        | setEntry ok h1 => exact ⟨[_], _, _, rfl, rfl, rfl, h1⟩
+    · split at h
+      · exact ⟨[], tr, _, rfl, rfl, rfl, h⟩
+      · split at h
+        · obtain ⟨t1, t2, ht, hc, hs, hk⟩ := storeResponse_run _ _ _ _ _ _ _ _ _ _ _ _ h
+          exact ⟨t1, t2, _, ht, hc, hs, hk⟩
+        · exact ⟨[], tr, _, rfl, rfl, rfl, h⟩
+
+
 end Httpcache
